@@ -264,3 +264,24 @@ package httpgrpc
 //@   assert_call[C03] writeProtoMessage : trailer_metadata_is_what_the_handler_set: tr.Metadata == lastresult(asTrailerProto) && lastarg(asTrailerProto, 0) == lastresult("metadata.Join") && lastarg("metadata.Join", 0) == str.tr
 //@   ensures[C11] request_body_drained_and_closed: calls(drainAndClose) == 1
 //@   modifies everything
+
+// ---- Channel.Invoke / Channel.NewStream (client.go): C13, C12, C04, C02 ----
+//
+//@ func (*Channel).Invoke
+//@   assert_call[C12] path.Join : base_path_then_method: len(arg0) == 2 && arg0[0] == ch.BaseURL.Path && arg0[1] == methodName
+//@   assert_call[C13] internal.ApplyPerRPCCreds : credentials_checked_against_the_url_scheme: arg0 == ctx$entry && arg1 == lastresult("internal.GetCallOptions") && arg2 == lastresult("(*url.URL).String") && (arg3 <==> reqUrl.Scheme == "https") && reqUrl.Scheme == old(ch.BaseURL.Scheme)
+//@   ensures[C13] credential_failure_sends_nothing: called("internal.ApplyPerRPCCreds") && lastresult("internal.ApplyPerRPCCreds", 1) != nil ==> result == lastresult("internal.ApplyPerRPCCreds", 1) && !called("http.RoundTripper.RoundTrip") && !called("go")
+//@   assert_call[C13,C03,C09] headersFromContext : from_the_credentialed_context: arg0 == lastresult("internal.ApplyPerRPCCreds", 0)
+//@   assert_call[C12,C01] http.NewRequest : post_to_the_joined_url: arg0 == "POST" && arg1 == lastresult("(*url.URL).String")
+//@   assert_call[C01] encoding.Codec.Marshal : the_request_message: arg1 == req
+//@   assert_call[C04,C13] http.RoundTripper.RoundTrip : through_the_configured_transport: arg0 == ch.Transport
+//@   assert_call[C04] (*http.Request).WithContext : request_is_bound_to_the_call_context: arg0 == lastresult("http.NewRequest", 0) && arg1 == lastresult("internal.ApplyPerRPCCreds", 0)
+//@   ensures[C04] transport_error_is_translated: called("http.RoundTripper.RoundTrip") && lastresult("http.RoundTripper.RoundTrip", 1) != nil ==> called(statusFromContextError) && result == lastresult(statusFromContextError) && lastarg(statusFromContextError, 0) == lastresult("http.RoundTripper.RoundTrip", 1)
+//@   assert_call[C13] getPeer : peer_reports_the_connection_tls_state: arg0 == ch.BaseURL && arg1 == lastresult("http.RoundTripper.RoundTrip", 0).TLS
+//@   assert_call[C03] setMetadata : from_the_reply_headers: arg0 == lastresult("http.RoundTripper.RoundTrip", 0).Header && arg1 == lastresult("internal.GetCallOptions")
+//@   assert_call[C02,C14] statFromResponse : of_the_reply: arg0 == lastresult("http.RoundTripper.RoundTrip", 0)
+//@   ensures[C02,C14] non_ok_status_is_returned: called(statFromResponse) && status_code(lastresult(statFromResponse)) != 0 ==> result != nil
+//@   ensures[C02] success_needs_ok_status_and_decoded_body: result == nil ==> called(statFromResponse) && status_code(lastresult(statFromResponse)) == 0 && called("encoding.Codec.Unmarshal") && lastresult("encoding.Codec.Unmarshal") == nil
+//@   assert_call[C01] encoding.Codec.Unmarshal : into_the_callers_response: arg2 == resp
+//@   blocking_escape[C05,C04] ctx
+//@   modifies everything
